@@ -3,7 +3,6 @@
 package client
 
 import (
-	"bufio"
 	"context"
 )
 
@@ -21,7 +20,7 @@ func VerifC06Refused() {
 	w := vNewWire()
 	var in0 chan *Line
 	var out0 chan string
-	var io0 *bufio.ReadWriter
+	var io0 interface{}
 	cancelled := false
 	if connected {
 		// an established connection, as internalConnect leaves it
@@ -54,12 +53,81 @@ func VerifC06Refused() {
 	vAssert(events == 0, "no-event-fired")
 	vAssert(conn.Connected() == connected, "connected-flag-unchanged")
 	if connected {
-		vAssert(conn.sock == w && conn.io == io0 && conn.in == in0 && conn.out == out0, "live-connection-untouched")
+		vAssert(conn.sock == w && interface{}(conn.io) == io0 && conn.in == in0 && conn.out == out0, "live-connection-untouched")
 		vAssert(conn.die != nil && !cancelled, "context-not-cancelled")
 		vAssert(w.closed == 0, "socket-not-closed")
 		if track {
 			vAssert(conn.st.GetChannel("#c") != nil, "tracker-not-wiped")
 		}
 	}
+	vReach("end")
+}
+
+// VerifC06RefusedLive: the same through the public API on a live connection (real Connect
+// via the stub dialler, recv / runLoop / send running): a second Connect / ConnectTo /
+// Connect-without-server is refused with an error and fires nothing; the existing connection
+// is then still fully working - a PING is answered on the wire - and it still ends with
+// exactly one DISCONNECTED whichever way it ends (server EOF, Close, context cancellation).
+func VerifC06RefusedLive() {
+	vSetOpt("deadlockIsViolation", 1)
+	cfg := NewConfig("me")
+	cfg.Server, cfg.Proxy, cfg.PingFreq, cfg.Flood = "srv:1", "vtest://p", 0, true
+	w := vNewLiveWire(":srv 001 me :Welcome\r\n")
+	w2 := vNewLiveWire()
+	d := &vDialer{wires: []*vWire{w, w2}}
+	vInstallDialer(d)
+	conn := Client(cfg)
+	if vLen("track", 0, 1) == 1 {
+		conn.EnableStateTracking()
+	}
+	reg, con, disc := 0, 0, 0
+	conn.HandleFunc(REGISTER, func(*Conn, *Line) { reg++ })
+	conn.HandleFunc(CONNECTED, func(*Conn, *Line) { con++ })
+	conn.HandleFunc(DISCONNECTED, func(c *Conn, l *Line) {
+		disc++
+		vAssert(!c.Connected(), "Connected-false-in-DISCONNECTED-handler")
+	})
+	ctx, cancel := context.WithCancel(context.Background())
+	err := conn.ConnectContext(ctx)
+	vAssume(err == nil)
+	vRunPending()
+	vAssert(reg == 1 && con == 1 && disc == 0 && conn.Connected(), "live:established")
+	refusals := vLen("refusals", 1, 2)
+	for i := 0; i < refusals; i++ {
+		switch vLen("how"+vItoa(i), 0, 2) {
+		case 0:
+			err = conn.Connect()
+		case 1:
+			err = conn.ConnectTo("other:2")
+		case 2:
+			err = conn.ConnectContext(context.Background())
+		}
+		vRunPending()
+		vAssert(err != nil, "refused-with-error")
+		vAssert(reg == 1 && con == 1 && disc == 0, "no-event-fired")
+		vAssert(conn.Connected(), "connected-flag-unchanged")
+	}
+	vAssert(len(d.addrs) == 1 && w.closed == 0, "live-connection-untouched")
+	before := len(w.written)
+	w.feed("PING :still-there\r\n")
+	vRunPending()
+	pong := false
+	for _, x := range w.written[before:] {
+		pong = pong || x == "PONG :still-there\r\n"
+	}
+	vAssert(pong, "live-connection-still-working")
+	switch vLen("end", 0, 2) {
+	case 0:
+		w.feedEOF("")
+	case 1:
+		conn.Close()
+	case 2:
+		cancel()
+	}
+	vRunPending()
+	vAssert(disc == 1, "DISCONNECTED-exactly-once")
+	vAssert(!conn.Connected(), "not-connected-at-the-end")
+	vAssert(reg == 1, "REGISTER-exactly-once")
+	cancel()
 	vReach("end")
 }
